@@ -89,6 +89,7 @@ func (muxer *Muxer) process(vp, ap Packetizer) {
 	}()
 
 	for !muxer.closed {
+		verifPoint("tsmux.before-pop", muxer)
 		f := muxer.recvQueue.Pop()
 		if f == nil {
 			if !muxer.closed {
